@@ -124,7 +124,7 @@ where
         skip(self, ctx, request),
         fields(
             rpc.trace_id = tracing::field::Empty,
-            rpc.deadline = %humantime::format_rfc3339(SystemTime::now() + ctx.deadline.time_until()),
+            rpc.deadline = %crate::util::format_deadline(SystemTime::now(), ctx.deadline.time_until()),
             otel.kind = "client",
             otel.name = %request.name())
         )]
